@@ -1,5 +1,6 @@
 import MgpuProofs.C11MSysR
 import MgpuProofs.Props.C11Sys
+import MgpuProofs.Props.C11Mq
 /-! # C11 — the closed copy system with several GPUs (`MgpuModel/C11MSys.lean`)
 
 One driver (`MqEnv`, `nGpus = N`), per GPU a lane = command processor + DMA engine + that GPU's memory +
@@ -361,5 +362,24 @@ theorem msys_one_gpu_replays_sys_demo :
   decide +kernel
 
 example : (reachSys demoSysCfg demoSysOps).mlog.length = 4 := by decide +kernel
+
+/-- **Each copy command of the several-GPU system completes exactly once**, in queue order; a completed
+    command had `mqWant N c` requests — one flush request per GPU if it needs flushing plus one per page
+    piece — and all of them were answered (`mq_complete_exactly_once` for the one driver of `MSys`). -/
+theorem msys_complete_exactly_once (c : MCfg) (ops : List MOp) :
+    let s := reachMSys c ops
+    s.mq.s.completed.Nodup ∧
+    (∀ qi q, s.mq.s.queues[qi]? = some q → (s.mq.s.completed.filter (·.1 = qi)).map (·.2) = List.range q.done) ∧
+    (∀ qi seq, (qi, seq) ∈ s.mq.s.completed → (∀ r ∈ s.mq.reqsOf qi seq, r.id ∈ s.mq.s.answered) ∧
+      ∃ cm, (s.mq.enqOf qi)[seq]? = some cm ∧ (s.mq.reqsOf qi seq).length = mqWant c.nGpus cm) := by
+  intro s
+  obtain ⟨mo, hmq⟩ := (reachMSys_inv c ops).mq
+  obtain ⟨h1, h2, h3⟩ := mq_complete_exactly_once c.nGpus c.sys.cycH2D c.sys.cycD2H c.sys.nQueues c.sys.warm mo
+  rw [← hmq] at h1 h2 h3
+  exact ⟨h1, fun qi q hq => (h2 qi q hq).1, h3⟩
+
+/-- the demo: one completion; the command had 2 flush requests (two GPUs) + 2 page pieces -/
+example : (reachMSys demoMCfg demoMOps).mq.s.completed = [(0, 0)] ∧
+    ((reachMSys demoMCfg demoMOps).mq.reqsOf 0 0).length = 4 := by decide +kernel
 
 end C11
